@@ -108,8 +108,9 @@ func (d *DoubleStack) LegalMove(p *tak.Position, m tak.Move) error {
 	ok := true
 	switch p.MoveNumber() {
 	case 0:
-		// White places black anywhere
-		d.blackPlace = m
+		// White places black anywhere. A new game: forget
+		// the squares of the last one.
+		*d = DoubleStack{blackPlace: m}
 	case 1:
 		// Black places black anywhere
 		d.whitePlace = m
@@ -318,7 +319,10 @@ func distance(x1, y1, x2, y2 int8) int8 {
 func (c *Cairn) LegalMove(p *tak.Position, m tak.Move) error {
 	ok := true
 	switch p.MoveNumber() {
-	case 0, 1:
+	case 0:
+		// a new game: forget the squares of the last one
+		*c = Cairn{}
+	case 1:
 		break
 	case 2:
 		// white places adjacent to center
